@@ -128,7 +128,8 @@ void nmc_enumerate(const nmc::Tier& t, const nmc::Sink& emit) {
         // repeat: repeats as a fixed array (length = extent), and a length-1 repeats (list / fixed array) that NumPy broadcasts
         if (d <= 2 || T) for (long a = -d; a < d; a++) { long n = s[(size_t)(a < 0 ? a + d : a)];
             if (n <= 3 && (a >= 0 || a == -1)) nmc::each_tuple((size_t)n, 1, 3, [&](const L& reps) { emit(Case("repeat_fa", {s, reps, {a}})); });
-            for (long r = 1; r <= 3; r++) { emit(Case("repeat_l1", {s, {r}, {a}})); if (n > 1) emit(Case("repeat_fa1", {s, {r}, {a}})); } }
+            if (d <= 2 && *std::max_element(s.begin(), s.end()) <= 3)   // same small menu in both tiers: on the pinned tree every broadcast case aborts, and a contained crash is expensive
+                for (long r = 1; r <= 3; r++) { emit(Case("repeat_l1", {s, {r}, {a}})); if (n > 1) emit(Case("repeat_fa1", {s, {r}, {a}})); } }
         // tile: reps two longer than the rank (list), reps as a fixed array (length 1..d+2 <= 4), reps as a tuple of constants
         if (d <= 2 || (T && d == 3)) nmc::each_tuple((size_t)(d + 2), 1, 2, [&](const L& reps) { emit(Case("tile", {s, reps})); });
         if (d <= 2 || T) for (long k = 1; k <= std::min(d + 2, 4L); k++) nmc::each_tuple((size_t)k, 1, (k >= 3 ? 2 : 3), [&](const L& reps) { if (d > 2 && k > 2) { long big = 0; for (long v : reps) big += v > 1; if (big > 1) return; } emit(Case("tile_fa", {s, reps})); });
@@ -255,4 +256,14 @@ void nmc_selftest() {
     if (!t || t->shape != L{2, 6} || t->data[3] != 1) nmc::die("selftest: tile model");
     long a0 = 0; ROpt rp = ref::repeat(r, L{2, 1}, &a0); if (!rp || rp->shape != L{3, 3} || rp->data[3] != 1) nmc::die("selftest: repeat model");
     long a1 = 1; ROpt tk = ref::take(r, L{-1, 0}, &a1); if (!tk || tk->data[0] != 3 || tk->data[1] != 1) nmc::die("selftest: take model");
+    // audit extension: None-axis compress model; an omitted / truncated pad value and a changed element type must be seen
+    ROpt cn = ref::compress(r, L{0, 1, 1, 0, 1}, nullptr); if (!cn || cn->shape != L{3} || cn->data != std::vector<double>{2, 3, 5}) nmc::die("selftest: compress None model");
+    if (nmc::diff(RArr(L{2}, {2, 3}).obs(), cn).empty()) nmc::die("selftest: oracle blind to a dropped compress element");
+    ROpt p0 = ref::pad(r, L{1, 0}, L{0, 2}, 0), p7 = ref::pad(r, L{1, 0}, L{0, 2}, -7), pt = ref::pad(r, L{1, 0}, L{0, 2}, std::trunc(-2.5)), pr = ref::pad(r, L{1, 0}, L{0, 2}, -3);
+    if (!p0 || p0->shape != L{3, 5} || p0->data[0] != 0 || p0->data[5] != 1) nmc::die("selftest: pad model");
+    if (nmc::diff(p7->obs(), p0).empty() || nmc::diff(pr->obs(), pt).empty()) nmc::die("selftest: oracle blind to a wrong pad value");
+    if (!elem_is<dyn_t<long>, long> || elem_is<dyn_t<double>, long> || elem_is<nmtools_maybe<dyn_t<float>>, long> || !elem_is<nmtools_maybe<dyn_t<long>>, long>) nmc::die("selftest: element type check");
+    L sh2{1}; L ax2{0, 1}; ROpt w2 = ref::roll(r, sh2, &ax2);   // scalar shift on every listed axis: [[6,4,5],[3,1,2]]
+    if (!w2 || w2->data[0] != 6 || w2->data[3] != 3) nmc::die("selftest: roll scalar-shift / list-axis model");
+    if (nmc::diff(w->obs(), w2).empty()) nmc::die("selftest: oracle blind to a shift applied to one listed axis only");
 }
